@@ -139,3 +139,27 @@ Theorem C18_parse_header_total :
   forall s, exists r, parse_header s = Ok r.
 Proof. exact parse_header_total. Qed.
 Print Assumptions C18_parse_header_total.
+
+(* ---- translator tie: the definitions generated from the current source of
+   headers._parseparam and headers.parse_header (gen/ParamGen.v, by
+   harness/py2v_param.py over lib/Py.v + lib/PyParam.v) are the model.
+   [PStr s] is a Python str, the generator's items are a [PList], a dict is
+   the [PList] of its (key, value) [PTuple]s in insertion order
+   ([enc_header_outcome]: the pair (key, dict), or the exception of
+   parts.__next__()).  Every Python `while` runs on fuel (one unit per
+   execution of a loop body, [OutOfFuel] when it is used up): any fuel above
+   the length of the scanned string suffices. *)
+Require Import PW.lib.Py PW.lib.PyParam PW.gen.ParamGen PW.proofs.ParamGenEq.
+
+Theorem C18_generated_parseparam_is_model :
+  forall (s : list Z) (fuel : nat), (List.length s < fuel)%nat ->
+    gen_parseparam (PStr s) fuel = Py.Ok (PList (map PStr (parseparam s))).
+Proof. exact gen_parseparam_is_model. Qed.
+Print Assumptions C18_generated_parseparam_is_model.
+
+Theorem C18_generated_parse_header_is_model :
+  forall (line : list Z) (fuel : nat), (S (List.length line) < fuel)%nat ->
+    gen_parse_header (PStr line) fuel
+    = enc_header_outcome (HeaderCodec.parse_header line).
+Proof. exact gen_parse_header_is_model. Qed.
+Print Assumptions C18_generated_parse_header_is_model.
